@@ -8,16 +8,27 @@ import (
 	"net/http"
 	"net/http/httptest"
 	"strings"
+	"sync"
+	"sync/atomic"
 	"time"
 
 	"github.com/influxdata/kapacitor"
+	"github.com/influxdata/kapacitor/server/vars"
 	"github.com/influxdata/kapacitor/services/httpd"
 
 	"kapverif/rt"
 )
 
 // generous: a missed deadline is a broken check (exit 2), never a verdict
-const waitDeadline = 120 * time.Second
+const (
+	waitDeadline = 120 * time.Second // fence point through the forking goroutine
+	callDeadline = 60 * time.Second  // one StartTask/StopTask/DeleteTask call
+	maxHangs     = 4                 // give up the run after this many stuck calls
+)
+
+// hang is panicked (and recovered by Lab.run) when a lifecycle call does not
+// return: the TaskMaster is then stuck holding its lock and is abandoned.
+type hang struct{ what string }
 
 var fenceDBRP = kapacitor.DBRP{Database: "_fence", RetentionPolicy: "f"}
 
@@ -28,6 +39,52 @@ type World struct {
 	HTTP  *httpd.Handler
 	fence int // fence points seen since the last Diag.Clear
 	trNo  int
+	dead  atomic.Bool // a lifecycle call is stuck: nothing more can be asked of this TaskMaster
+	snaps *snapStore
+}
+
+// snapStore is the TaskMaster's TaskStore: it claims a (corrupt) snapshot for
+// the tasks in fail, which makes StartTask return an error after it has
+// already registered the task's fork.
+type snapStore struct {
+	mu   sync.Mutex
+	fail map[string]bool
+}
+
+func (s *snapStore) SaveSnapshot(string, *kapacitor.TaskSnapshot) error { return nil }
+func (s *snapStore) HasSnapshot(id string) bool {
+	s.mu.Lock()
+	defer s.mu.Unlock()
+	return s.fail[id]
+}
+func (s *snapStore) LoadSnapshot(id string) (*kapacitor.TaskSnapshot, error) {
+	return nil, fmt.Errorf("snapshot of %s is corrupt", id)
+}
+func (s *snapStore) setFail(id string, v bool) {
+	s.mu.Lock()
+	s.fail[id] = v
+	s.mu.Unlock()
+}
+
+// orphan reports, from the published statistics (what /kapacitor/v1/debug/vars
+// shows), the live input edges "stream -> stream0" registered for task id and
+// how many points the forking goroutine has collected on them.  For a task
+// that is not executing both must be zero: StopTask closes the edge, which
+// removes its statistic.
+func orphan(id string) (edges int, collected int64) {
+	data, err := vars.GetStatsData()
+	if err != nil {
+		rt.Fatalf("GetStatsData: %v", err)
+	}
+	for _, d := range data {
+		if d.Name == "edges" && d.Tags["task"] == id && d.Tags["parent"] == "stream" && d.Tags["child"] == "stream0" {
+			edges++
+			if n, ok := d.Values["collected"].(int64); ok {
+				collected += n
+			}
+		}
+	}
+	return
 }
 
 func NewWorld() (*World, error) {
@@ -36,7 +93,8 @@ func NewWorld() (*World, error) {
 		return nil, err
 	}
 	env.TM.DefaultRetentionPolicy = defaultRP
-	w := &World{Env: env}
+	w := &World{Env: env, snaps: &snapStore{fail: map[string]bool{}}}
+	env.TM.TaskStore = w.snaps
 	if _, err := env.StartTask("fence", "stream\n    |from()\n    |log()\n        .prefix('fence')\n", kapacitor.StreamTask, []kapacitor.DBRP{fenceDBRP}); err != nil {
 		env.Close()
 		return nil, fmt.Errorf("fence task: %w", err)
@@ -53,15 +111,22 @@ func (w *World) Close() { w.Env.Close() }
 // the task edges: the forking goroutine is a single FIFO consumer, so once the
 // fence task (own dbrp, always running) has logged this fence point, forkPoint
 // has completed for everything written earlier.
-func (w *World) Sync() {
+// It returns false only when the world has been declared dead meanwhile.
+func (w *World) Sync() bool {
 	w.fence++
-	p := rt.MustPoint("fence", nil, map[string]any{"n": int64(w.fence)}, rt.DefaultTime.T(0))
+	p := mustPoint("fence", nil, map[string]any{"n": int64(w.fence)}, rt.DefaultTime.T(0))
 	if err := w.Env.Write(fenceDBRP.Database, fenceDBRP.RetentionPolicy, p); err != nil {
 		rt.Fatalf("fence write: %v", err)
 	}
-	if !w.Env.Diag.WaitCount("fence", w.fence, waitDeadline) {
-		rt.Fatalf("fence point %d not seen within %v (forking goroutine stuck?)", w.fence, waitDeadline)
+	for waited := time.Duration(0); !w.Env.Diag.WaitCount("fence", w.fence, time.Second); waited += time.Second {
+		if w.dead.Load() {
+			return false
+		}
+		if waited >= waitDeadline {
+			rt.Fatalf("fence point %d not seen within %v (forking goroutine stuck?)", w.fence, waitDeadline)
+		}
 	}
+	return true
 }
 
 // httpDiag satisfies httpd.Diagnostic.
